@@ -201,6 +201,10 @@ func (node *Node) ProcessBlock(ctx context.Context, block wire.Block) error {
 	node.blockLock.Lock()
 	defer node.blockLock.Unlock()
 
+	// The headers handler must not revert the chain between the parent check and the add below.
+	node.blocks.LockChain()
+	defer node.blocks.UnlockChain()
+
 	header := block.GetHeader()
 	hash := header.BlockHash()
 	start := time.Now()
